@@ -17,8 +17,9 @@ pub fn def() -> PropDef {
             "durability model = the Directory contract as implemented by MmapDirectory: bytes durable after terminate (sync_data), directory entries (create, atomic_write's rename, unlink) durable after the next sync_directory; atomic_write content is synced before its rename",
             "crash points are storage-operation boundaries; a crash inside one write is covered by the truncated outcome",
             "lock files are excluded from images (advisory locks die with the process)",
+            "sub mmap_syscalls checks the first assumption on the real MmapDirectory: generated Directory programs and indexing histories run in a child process under strace; per operation (atomic_write: temp file written completely, fsynced, then renamed; terminate: fsync after the last write, every appended byte written; sync_directory: fsync of the directory; delete: unlink) and per commit (every file referenced by the published meta.json was data-synced and its directory entry synced before the meta.json rename, which is itself followed by a directory sync before commit() returns)",
         ],
-        subs: vec![Box::new(Crash { orphans: false })],
+        subs: vec![Box::new(Crash { orphans: false }), Box::new(super::c01_mmap::MmapSyscalls)],
     }
 }
 
